@@ -7,7 +7,7 @@ import ast
 from ..core import Ctx, RuleResult, finding, short, walk_no_nested
 from ..model import AnalysisError, norm
 from ..mutants import Mut
-from ..rules import accum, alias, loopfresh, canv, dim, fresh
+from ..rules import accum, alias, loopfresh, canv, dim, fresh, posbound
 from ..rules.defuse import DefUse
 from ..rules.exc import ExcEngine
 from ..rules.util import callee_name, cfg_of, lin_str, linear, node_exprs, nodes_where
@@ -26,6 +26,7 @@ EXPLANATION = (
     " Round 4: the coords shift of pad_trim_left_right / trim is made under exactly the conditions under which the shards are replaced; (11) LOOPFRESH - per-shard state (content_delta's row memo, new_cviews, the running column) is defined anew for every shard."
     " Round-4 triage: (12) content_delta pairs cviews by screen column - the unchanged marker is produced from column lists computed with the shard tails, and both tails are carried forward for every shard consumed or stepped over; each column list pairs a shard's cviews with the tail of the same canvas. Round 5: (13) the two content-iterator sites of shard_body() pass canv.content() the same arguments."
     ' Round 6: (12c) the shard comparison of shards_delta is reached only under a test ordering the two row counters (row alignment); (14) ALIAS: coords / shortcuts are never shared with the wrapped canvas.'
+    ' Round 7: (15) the unchanged test of content_delta compares the canvas and all five leading cview fields; (16) SIB: cview_trim_top / cview_trim_left are mirror images under the axis swap (offset + trim, extent - trim); (17) POSBOUND over canvas.py: the cursor kept after a trim is tested half-open against cols() / rows().'
 )
 NOT_DECIDED = "Cell-for-cell equality with the grid model, the width arithmetic of cutting wide characters, content_delta round trip - statements about values of the shard algebra."
 ASSUMPTIONS = []
@@ -312,6 +313,93 @@ def rule_delta_columns(ctx: Ctx) -> RuleResult:
     return rr
 
 
+def rule_delta_fields(ctx: Ctx) -> RuleResult:
+    """A cview is (trim_left, trim_top, cols, rows, attr_map, canvas): everything but the canvas object decides what
+    the cview shows - the attribute map (set by fill_attr_apply) just as much as the trims.  The test that marks a
+    cview "unchanged" compares the canvas by identity and the *five* leading fields: a slice comparison `cv[:k] ==
+    other[:k]` with k >= 5.  With k == 4 a re-mapped attribute (same leaf canvas, other colours) is skipped by the
+    delta and the old colours stay on screen."""
+    p = ctx.p
+    rr = RuleResult("PAIR", "C02.15", "the unchanged test of content_delta compares the canvas object and all five leading cview fields (incl. the attribute map)", floor=1)
+    mod = p.modules[CV]
+    for fi in [f for f in mod.functions if f.cls is None]:
+        for t in [n for n in fi.own_nodes() if isinstance(n, ast.If) and any(isinstance(c, ast.Compare) and isinstance(c.ops[0], ast.Is) and not isinstance(c.comparators[0], ast.Constant) for c in ast.walk(n.test))]:
+            slices = [c for c in ast.walk(t.test) if isinstance(c, ast.Compare) and isinstance(c.ops[0], ast.Eq) and isinstance(c.left, ast.Subscript) and isinstance(c.left.slice, ast.Slice)]
+            if not slices:
+                continue
+            for c in slices:
+                up = c.left.slice.upper
+                k = up.value if isinstance(up, ast.Constant) else None
+                same = ast.unparse(c.left.slice) == ast.unparse(c.comparators[0].slice) if isinstance(c.comparators[0], ast.Subscript) else False
+                rr.inst(f"{short(fi)}: {norm(c, 40)}", True, {"test": norm(t.test, 90), "fields_compared": k})
+                if k is None or k < 5 or not same or c.left.slice.lower is not None:
+                    rr.add(finding("PAIR", fi, c, f"`{norm(c, 50)}` compares the first {k} cview fields: a cview is (trim_left, trim_top, cols, rows, attr_map, canvas), and the attribute map (field 4) decides what is shown as much as the trims - a view whose attributes were re-mapped is marked unchanged and keeps its old colours on screen", construct="unchanged test ignores a cview field"))
+    return rr
+
+
+def rule_trim_mirror(ctx: Ctx, clause="C02.16") -> RuleResult:
+    """cview_trim_top and cview_trim_left cut a cview at the top / on the left: the offset into the underlying canvas
+    *grows* by the trim (a cview that was trimmed before keeps that offset) and the extent shrinks by it.  The two are
+    mirror images under the axis swap (trim_left <-> trim_top, cols <-> rows): after swapping the field indices 0 <-> 1
+    and 2 <-> 3 in one of them, both return the same four leading fields.  A top trim that *sets* the offset shows the
+    wrong rows for every view that was already trimmed (a scrolled Scrollable inside a Scrollable)."""
+    p = ctx.p
+    rr = RuleResult("SIB", clause, "cview_trim_top and cview_trim_left are mirror images: the offset grows by the trim, the extent shrinks by it", floor=2)
+    top, left = p.func(f"{CV}.cview_trim_top"), p.func(f"{CV}.cview_trim_left")
+
+    def fields(fi):
+        """canonical text of the four leading fields of the returned tuple, fields as f0..f3, trim parameter as T"""
+        prm, trim = fi.params[0], fi.params[1]
+        ret = next((n.value for n in fi.own_nodes() if isinstance(n, ast.Return)), None)
+        parts, work = [], [ret]
+        while work:
+            x = work.pop(0)
+            if isinstance(x, ast.BinOp) and isinstance(x.op, ast.Add) and (isinstance(x.left, (ast.Tuple, ast.Subscript, ast.BinOp)) and isinstance(x.right, (ast.Tuple, ast.Subscript))):
+                work = [x.left, x.right, *work]
+            else:
+                parts.append(x)
+        out = []
+        for x in parts:
+            if isinstance(x, ast.Tuple):
+                out += list(x.elts)
+            elif isinstance(x, ast.Subscript) and isinstance(x.slice, ast.Slice):
+                lo = x.slice.lower.value if isinstance(x.slice.lower, ast.Constant) else 0
+                hi = x.slice.upper.value if isinstance(x.slice.upper, ast.Constant) else 6
+                out += [ast.Subscript(value=ast.Name(id=prm, ctx=ast.Load()), slice=ast.Constant(value=i), ctx=ast.Load()) for i in range(lo, hi)]
+        from ..rules.util import lin_str, linear
+
+        res = []
+        for e in out[:4]:
+            d = linear(e)
+            if d is None:
+                res.append(ast.unparse(e))
+                continue
+            d2 = {}
+            for k, v in d.items():
+                k2 = k.replace(f"{prm}[", "f[").replace(trim, "T") if k else k
+                d2[k2] = v
+            res.append(lin_str(d2))
+        return res
+
+    ft, fl = fields(top), fields(left)
+    swap = {"f[0]": "f[1]", "f[1]": "f[0]", "f[2]": "f[3]", "f[3]": "f[2]"}
+
+    def mirrored(fs):
+        import re as _re
+
+        sw = [_re.sub(r"f\[[0-3]\]", lambda m: swap[m.group(0)], x) for x in fs]
+        return [sw[1], sw[0], sw[3], sw[2]]
+
+    rr.inst("cview_trim_top", True, {"fields": ft})
+    rr.inst("cview_trim_left", True, {"fields": fl})
+    if mirrored(fl) != ft:
+        # say which one deviates from "offset + trim, extent - trim"
+        want_top = ["+1*f[0]", "+1*T +1*f[1]", "+1*f[2]", "-1*T +1*f[3]"]
+        bad = top if sorted(ft) != sorted(want_top) else left
+        rr.add(finding("SIB", bad, bad.node, f"cview_trim_top returns {ft} and cview_trim_left {fl}: they are not mirror images under the axis swap - one of them does not *add* the trim to the offset the cview already has (or does not take it off the extent): a view that was trimmed before shows other rows / columns than the ones it should after a second trim", construct="cview trims are not mirror images"))
+    return rr
+
+
 def rule_shard_body_sites(ctx: Ctx) -> RuleResult:
     """shard_body() creates the content iterator of a new cview at two places - inside the gap loop (cviews to the left
     of a cview running down from the shard above) and in the trailing loop.  Both are the same operation on the same
@@ -370,6 +458,9 @@ def run(ctx: Ctx):
         rule_delta(ctx),
         rule_delta_columns(ctx),
         rule_shard_body_sites(ctx),
+        rule_delta_fields(ctx),
+        rule_trim_mirror(ctx),
+        posbound.run_posbound(p, "C02.17", [CV], floor=2),
         alias.run_inplace_own(p, "C02.14", [CV], floor=6, exempt=_OWN_EXEMPT),
         rule_get_or(ctx),
         accum.run_accum(p, "C02.9", "C02", floor=5),
@@ -380,6 +471,10 @@ def run(ctx: Ctx):
 
 _C = "urwid/canvas.py"
 MUTANTS = [
+    Mut("delta-ignores-attribute-map", "urwid/canvas.py", "shard_cviews_delta", "cv[:5] == other_cv[:5]", "cv[:4] == other_cv[:4]", "PAIR|canvas.shard_cviews_delta|unchanged test ignores a cview field"),
+    Mut("trim-top-sets-offset", "urwid/canvas.py", "cview_trim_top", "    return (cv[0], trim + cv[1], cv[2], cv[3] - trim) + cv[4:]", "    return (cv[0], trim, cv[2], cv[3] - trim) + cv[4:]", "SIB|canvas.cview_trim_top|cview trims are not mirror images"),
+    Mut("twin-trim-top-operands-swapped", "urwid/canvas.py", "cview_trim_top", "    return (cv[0], trim + cv[1], cv[2], cv[3] - trim) + cv[4:]", "    return (cv[0], cv[1] + trim, cv[2], cv[3] - trim) + cv[4:]", twin=True),
+    Mut("dropped-cursor-bound-closed", "urwid/canvas.py", "CompositeCanvas._drop_trimmed_cursor", "0 <= cursor[0] < self.cols()", "0 <= cursor[0] <= self.cols()", "POSBOUND|canvas.CompositeCanvas._drop_trimmed_cursor"),
     Mut("composite-shares-coords-dict", "urwid/canvas.py", "CompositeCanvas.__init__", "            self.coords.update(canv.coords)", "            self.coords = canv.coords", "ALIAS|canvas.CompositeCanvas.__init__|self.coords shares a foreign object that is edited in place"),
     Mut("twin-composite-copies-coords-dict", "urwid/canvas.py", "CompositeCanvas.__init__", "            self.coords.update(canv.coords)", "            self.coords = dict(canv.coords)", twin=True),
     Mut("delta-compares-unaligned-shards", "urwid/canvas.py", "shards_delta", "        if other_num_rows is None or other_done > done:", "        if other_num_rows is None:", "PAIR|canvas.shards_delta|shards compared without row alignment test"),
